@@ -107,7 +107,11 @@ def transfer(arg, param):
     return 'expr', sx.render(arg)[:40]
 
 
+_CONSTS = {}
+
+
 def x9(ctx, tab, sites, scc=()):
+    _CONSTS.clear()
     r = RuleResult('X9', 'flags, paths, tables and depth counters are forwarded to the parameter of the same name')
     n = 0
     inlined = {}
@@ -125,7 +129,15 @@ def x9(ctx, tab, sites, scc=()):
                         lits[nn['pat']['n']] = nn['init']
             inlined[caller] = {k: v for k, v in lits.items() if cnt.get(k) == 1 and k not in names}
         call = dict(call)
-        call['args'] = [inlined[caller].get(a_['p'], a_) if sx.is_path(a_) else a_ for a_ in call['args']]
+        # crate-level constants with a literal value stand for that literal too (`const STRIP_COMMENTS: bool = false;`)
+        if crate not in _CONSTS:
+            cl_ = {}
+            for fl_, fv_ in sx.crate_files(ctx.syn, crate).items():
+                for mp_, it_ in sx.items_rec(fv_['items']):
+                    if it_['k'] == 'const' and isinstance(it_.get('e'), dict) and it_['e'].get('k') == 'lit':
+                        cl_[it_['name']] = it_['e']
+            _CONSTS[crate] = cl_
+        call['args'] = [inlined[caller].get(a_['p'], _CONSTS[crate].get(a_['p'], a_) if a_['p'] not in names else a_) if sx.is_path(a_) else a_ for a_ in call['args']]
         pnames = tab[callee][3]
         for i, (arg, pn) in enumerate(zip(call['args'], pnames)):
             if pn not in TRACKED:
@@ -255,14 +267,28 @@ def x8(ctx, tab, sites, pp):
             limit_name, limit_val = name, sx.lit_int(c['e'])
     r.exactly('limit_constant', 1 if limit_name else 0, 1)
     guards = {}   # counter -> (function, op)
+    FLIP = {'<': '>', '<=': '>=', '>': '<', '>=': '<=', '==': '==', '!=': '!='}
+
+    def cmp_with_limit(e_):
+        """(counter expression, operator) of a comparison with the limit constant, normalised to `counter OP LIMIT`"""
+        if e_.get('k') == 'paren':
+            e_ = e_['e']
+        if e_.get('k') != 'binary' or e_.get('op') not in FLIP:
+            return None
+        if sx.is_path(e_['r'], limit_name) and sx.is_path(e_['l_']):
+            return e_['l_']['p'], e_['op']
+        if sx.is_path(e_['l_'], limit_name) and sx.is_path(e_['r']):
+            return e_['r']['p'], FLIP[e_['op']]
+        return None
     for f in scc:
         fn = tab[f][2]
         for n in sx.walk(fn['body']):
-            if n.get('k') == 'if' and n['c'].get('k') == 'binary' and sx.is_path(n['c']['r'], limit_name) and sx.is_path(n['c']['l_']):
-                ctr = n['c']['l_']['p']
+            cw = cmp_with_limit(n['c']) if n.get('k') == 'if' and isinstance(n.get('c'), dict) else None
+            if cw:
+                ctr = cw[0]
                 rets = [x for x in sx.walk(n['t']) if x.get('k') == 'return' and 'ExceedRecursiveLimit' in sq(x)]
                 if rets:
-                    guards[ctr] = (f, n['c']['op'], n.get('l'))
+                    guards[ctr] = (f, cw[1], n.get('l'))
             # the comparison may live in a one-expression private predicate: `if exceeds(counter) { return Err(ExceedRecursiveLimit) }`
             if n.get('k') == 'if' and sx.is_call(n['c']) and n['c']['f']['p'] in pp.fns and len(n['c']['args']) == 1 and sx.is_path(n['c']['args'][0]):
                 h = pp.fns[n['c']['f']['p']]
@@ -270,10 +296,11 @@ def x8(ctx, tab, sites, pp):
                 hp = [sx.pat_idents(q['pat'])[0] for q in h['sig']['params'] if q.get('k') == 'typed']
                 if len(hs) == 1 and hs[0]['k'] == 'expr' and not hs[0].get('semi') and len(hp) == 1:
                     e_ = hs[0]['e']
-                    if e_.get('k') == 'binary' and sx.is_path(e_['l_'], hp[0]) and sx.is_path(e_['r'], limit_name):
+                    cw = cmp_with_limit(e_)
+                    if cw and cw[0] == hp[0]:
                         rets = [x for x in sx.walk(n['t']) if x.get('k') == 'return' and 'ExceedRecursiveLimit' in sq(x)]
                         if rets:
-                            guards[n['c']['args'][0]['p']] = (f, e_['op'], n.get('l'))
+                            guards[n['c']['args'][0]['p']] = (f, cw[1], n.get('l'))
     counters = sorted(guards)
     r.inst('guards', {'guards': {k: '%s: %s %s %s' % (v[0], k, v[1], limit_name) for k, v in guards.items()}})
     if not counters:
